@@ -351,7 +351,7 @@ def run(rep, tier, seed):
                            "four fixed layer stacks with options; followed by a read of every property on the path and a write; "
                            "plus random histories of 2-4 assignments with reads and writes in between, and two-assignment sequences "
                            "pairing a field of one layer with a structure-selecting field re-assigned its own value, in both "
-                           "orders; distinct = distinct scripts")
+                           "orders; frames with two 802.1Q tags and with IPv4 / TCP length fields below the minimum; distinct = distinct scripts")
         rep.cov["exhaustive"] = False
         rep.sample({"script": items[0]["src"][:1500], "frame_hex": bytes(items[0]["raw"]).hex()})
     finally:
